@@ -657,7 +657,8 @@ class ParametersVisitor(LoggerProperty, ast.NodeVisitor):
                 function_or_class = self.get_component_from_source(node.func.id, source)
         elif isinstance(node.func, ast.Attribute) and isinstance(node.func.value, ast.Name):
             if self.parent and ast.dump(node.func.value) == ast.dump(ast_variable_load(self.self_name)):
-                function_or_class = self.parent
+                classes = current_mro.get()[0]  # the method is looked up on the class being instantiated
+                function_or_class = classes[0] if classes and is_subclass(classes[0], self.parent) else self.parent
                 method_or_property = node.func.attr
             else:
                 container = None
